@@ -22,7 +22,10 @@ def harness(tier, seed):
     templates = [Instance.from_resource(n) for n in ("a01", "a04", "a10", "beng01", "cl01_020_01")]
     small = [Instance("s1", 10, 8, [[3, 2, 4], [5, 4, 2], [2, 2, 3]]), Instance("s2", 6, 6, [[3, 3, 5], [2, 6, 1]]),
              Instance("s3", 5, 9, [[1, 1, 12], [5, 3, 2]]), Instance("s4", 7, 3, [[7, 3, 2], [1, 1, 1]]),
-             Instance("plan", 9, 6, [[3, 2, 3], [4, 3, 2], [9, 1, 1]])]      # (a template name that already ends in "n")
+             Instance("plan", 9, 6, [[3, 2, 3], [4, 3, 2], [9, 1, 1]]),      # (a template name that already ends in "n")
+             # portrait bins whose items are all taller than the bin is wide
+             Instance("s6", 6, 40, [[6, 20, 1], [3, 20, 2], [6, 10, 2], [6, 8, 1]]),
+             Instance("s7", 3, 50, [[3, 25, 1], [1, 25, 3], [2, 10, 2], [3, 7, 4]])]
     # templates whose lower bound exceeds the area bound (the decoder must keep the *lower bound*, not only the area)
     tight = [Instance.from_resource(n) for n in ("a02", "cl05_020_01")]
     tight = [t for t in tight if t.lower_bound_bins * t.bin_width * t.bin_height - t.total_item_area
